@@ -374,9 +374,13 @@ fn run_script(name: &str, sc: &Script) -> Result<(Vec<Obs>, f64), String> {
     for e in &sc.evs {
         let (resp, who, note) = match e {
             Ev::Restart => {
-                let clean = s.stop_graceful()?;
+                // the model's restart is "graceful stop at a quiescent point, start on the same data dir";
+                // a SIGTERM that does not end in a clean exit (8 s timeout under load) is outside it
+                if !s.stop_graceful()? {
+                    return Err("server did not exit cleanly on SIGTERM (restart precondition not met; script not judged)".into());
+                }
                 s.restart()?;
-                (Resp::OkRestart, 0usize, if clean { String::new() } else { "unclean exit on SIGTERM".to_string() })
+                (Resp::OkRestart, 0usize, String::new())
             }
             Ev::Call(t, op) => {
                 let (r, note) = run_op(&s, &keys[*t], op);
